@@ -52,14 +52,31 @@ struct el_map : cc::ellen_bintree::traits { typedef Less less; typedef cds::atom
 // ---- Bronson AVL tree
 template <class M> struct TrueHeights : M {   // recompute real subtree heights (the library's own check compares child heights without adding one)
     typedef typename M::node_type N;
+    int H(N* n) { if (!n) return 0; int l = H(M::child(n, -1, atomics::memory_order_relaxed)), r = H(M::child(n, 1, atomics::memory_order_relaxed)); return 1 + (l > r ? l : r); }
+    // The one imbalance the algorithm leaves behind by design (known finding, DESIGN.md 9.2): node n is 2 too tall on the side of a
+    // routing child c whose inner grandchild is 1 taller than the outer one, and the double rotation is refused because it would
+    // leave the routing node c with a missing child (rebalance_to_right_locked / rebalance_to_left_locked: "(hLL == 0 || hLRL == 0)
+    // && !pLeft->is_valued()"); the fall-back rebalance of c finds c itself balanced and stops, so n is never repaired.
+    bool blocked_by_routing_child(N* n, int l, int r) {
+        if (l - r < 2 && r - l < 2) return false;
+        int dir = l > r ? -1 : 1; N* c = M::child(n, dir, atomics::memory_order_relaxed);
+        if (!c) return false;
+        // c is a routing node now, or was one at some time (its key was erased and possibly inserted again: re-valuing a routing node repairs nothing)
+        if (c->is_valued(atomics::memory_order_relaxed) && !erased.count((long)c->m_key)) return false;
+        return true;   // later insertions below c can change which grandchild is taller without repairing n, so the shape below c is not constrained
+    }
+    std::set<long> erased; bool all_erased = false;
     int height(N* n, bool& balanced, bool& ordered, long lo, long hi) {
         if (!n) return 0;
         long k = (long)n->m_key; if (k <= lo || k >= hi) ordered = false;
         int l = height(M::child(n, -1, atomics::memory_order_relaxed), balanced, ordered, lo, k), r = height(M::child(n, 1, atomics::memory_order_relaxed), balanced, ordered, k, hi);
-        if (l - r > 1 || r - l > 1) balanced = false;
+        if (l - r > 1 || r - l > 1) { if (blocked_by_routing_child(n, l, r)) ++blocked; else balanced = false; }
         return 1 + (l > r ? l : r);
     }
-    bool avl(bool& ordered) { bool b = true; ordered = true; height(M::child(this->m_pRoot, 1, atomics::memory_order_relaxed), b, ordered, -(1L << 60), 1L << 60); return b; }
+    int blocked = 0;
+    void dump(N* n, std::string& out) { if (!n) { out += "-"; return; } char b[64]; snprintf(b, sizeof b, "(%ld%s h%d ", (long)n->m_key, n->is_valued(atomics::memory_order_relaxed) ? "" : "*", (int)n->m_nHeight.load(atomics::memory_order_relaxed)); out += b; dump(M::child(n, -1, atomics::memory_order_relaxed), out); out += " "; dump(M::child(n, 1, atomics::memory_order_relaxed), out); out += ")"; }
+    std::string dump() { std::string o; dump(M::child(this->m_pRoot, 1, atomics::memory_order_relaxed), o); return o; }
+    bool avl(bool& ordered) { bool b = true; ordered = true; blocked = 0; erased.clear(); if (g_consistency_ctx) for (auto& e : g_consistency_ctx->hist) { if ((e.kind == ERASE || e.kind == EXTRACT) && (!e.done || e.r)) erased.insert(e.a); if ((e.kind == EXTRACT_MIN || e.kind == EXTRACT_MAX) && e.done && e.r) erased.insert(e.r3); if (e.kind == EXTRACT_MIN || e.kind == EXTRACT_MAX || e.kind == CLEAR) { if (!e.done || e.kind == CLEAR) for (long k = 0; k < 64; k++) erased.insert(k); } } height(M::child(this->m_pRoot, 1, atomics::memory_order_relaxed), b, ordered, -(1L << 60), 1L << 60); return b; }
 };
 struct BF { R* r; template <class K, class V> void operator()(K const&, V& v) const { ++r->calls; r->inst = v; } };
 template <class M> struct BronA {
@@ -103,7 +120,8 @@ template <class M> struct BronP {
     R extract_max() { R r; long k = 0; auto xp = s->extract_max_key(k); if (xp) { r.ok = true; r.inst = xp->inst; r.key = k; } xp.release(); return r; }
     bool traverse(std::vector<long>&) { return false; }
     long size() { return (long)s->size(); } bool empty() { return s->empty(); }
-    bool consistent(std::string& why) { bool ordered = true; bool bal = s->avl(ordered); if (!s->check_consistency() || !ordered) { why = "BronsonAVLTreeMap<T*>: search-tree order violated at quiescence"; return false; } if (!bal) { why = "BronsonAVLTreeMap<T*>: AVL balance violated at quiescence"; return false; } return true; }
+    bool consistent(std::string& why) { bool ordered = true; bool bal = s->avl(ordered); if (!s->check_consistency() || !ordered) { why = "BronsonAVLTreeMap<T*>: search-tree order violated at quiescence"; return false; } if (!bal) { why = "BronsonAVLTreeMap<T*>: AVL balance violated at quiescence; tree (key[* = routing node] stored-height left right): " + s->dump(); return false; }
+        if (s->blocked) { why = "@avl-imbalance-behind-routing-node BronsonAVLTreeMap<T*>: at quiescence a node is 2 too tall on the side of a routing child (double rotation refused, never repaired); tree (key[* = routing node] stored-height left right): " + s->dump(); return false; } return true; }
     void probes(Ctx&) {}
 };
 struct br_inj : cc::bronson_avltree::traits { typedef Less less; typedef cds::atomicity::item_counter item_counter; typedef cc::bronson_avltree::stat<> stat; };
